@@ -246,7 +246,63 @@ class GenC04:
         return "\n".join(self.lines)
 
 
-def gen_c04_program(rng: random.Random, **kw) -> tuple[str, dict[str, int]]:
+def gen_nested_blocks_program(rng: random.Random) -> tuple[str, dict[str, int]]:
+    """Nested blocks with Watches/Alarms registered in the OUTER blocks and `End blocks` / `End block` issued from an
+    inner block (from the main flow or from a Watch body), plus Watches nested inside Watch bodies of a block."""
+    g = GenC04(rng)
+    depth_n = rng.choice([2, 2, 3])
+
+    def interrupt(depth):
+        kind = rng.choice(["Watch", "Watch", "Alarm"])
+        g.emit(depth, f"{kind}: {g.cond()}", thr=False)
+        g.count(kind.lower())
+        if rng.random() < 0.3:       # a Watch declared inside the body: two levels below the block
+            g.emit(depth + 1, f"Watch: {g.cond()}", thr=False)
+            g.count("watch")
+            g.mark(depth + 2)
+        for _ in range(rng.randrange(1, 3)):
+            if rng.random() < 0.25:
+                g.emit(depth + 1, f"Wait: {rng.choice(['0.25', '0.5', '1'])}s", thr=False)
+            else:
+                g.mark(depth + 1)
+
+    def block(level):
+        g.block_no += 1
+        d = level
+        g.emit(d, f"Block: B{g.block_no}", thr=False)
+        g.count("block")
+        for _ in range(rng.randrange(0, 3) if level + 1 < depth_n else rng.randrange(0, 2)):
+            interrupt(d + 1)
+        if rng.random() < 0.4:
+            g.mark(d + 1)
+        if level + 1 < depth_n:
+            block(level + 1)
+            if rng.random() < 0.5:
+                g.mark(d + 1)
+            if rng.random() < 0.5:
+                g.emit(d + 1, f"Wait: {rng.choice(['0.5', '1', '2'])}s", thr=False)
+            if rng.random() < 0.6:
+                g.emit(d + 1, "End block", thr=False)
+        else:
+            ender = rng.choice(["End blocks", "End blocks", "End block"])
+            g.count("endblocks" if ender == "End blocks" else "endblock")
+            if rng.random() < 0.5:
+                g.emit(d + 1, f"Watch: {g.cond()}", thr=False)
+                g.emit(d + 2, ender, thr=False)
+                g.emit(d + 1, f"Wait: {rng.choice(['1', '2', '3'])}s", thr=False)
+            else:
+                g.emit(d + 1, f"Wait: {rng.choice(['0.25', '0.5', '1'])}s", thr=False)
+                g.emit(d + 1, ender, thr=False)
+    block(0)
+    g.mark(0)
+    g.emit(0, "Wait: 2s", thr=False)
+    g.count("nested-block-method")
+    return "\n".join(g.lines), g.stats
+
+
+def gen_c04_program(rng: random.Random, nested: bool = False, **kw) -> tuple[str, dict[str, int]]:
+    if nested:
+        return gen_nested_blocks_program(rng)
     g = GenC04(rng, **kw)
     return g.program(), g.stats
 
@@ -288,6 +344,12 @@ TEMPLATES = {
              "    End block\nMark: c\n",
     # Alarm in a block ended from the main thread
     "blockalarm": "Block: B\n    Alarm: T0 > 0\n        Mark: a\n    Wait: 0.5s\n    End block\nMark: c\n",
+    # nested blocks: a Watch registered in the OUTER block, `End blocks` from the inner one (from a Watch or the main flow)
+    "nested": "Block: B1\n    Watch: T0 > 0\n        Mark: a\n    Block: B2\n        Watch: T1 > 0\n            End blocks\n"
+              "        Wait: 0.5s\n        End blocks\nMark: c\n",
+    # a Watch declared inside a Watch body: two levels below the block that is ended
+    "deep": "Block: B\n    Watch: T0 > 0\n        Watch: T1 > 0\n            Mark: a\n        Wait: 0.5s\n    Wait: 0.25s\n"
+            "    End block\nMark: c\n",
 }
 # op alphabet: tags are [T0, T1, 0]
 ALPHABET = ["t00", "t10", "t01", "cancel", "force"]
